@@ -63,20 +63,34 @@ Proof. vm_compute. reflexivity. Qed.
 Require Verif.C11.Reload Verif.C11.ReloadProofs Verif.C11.LCheck Verif.C11.LCheckProofs.
 
 (* for every history of creates, pauses and resumes each cut by a crash before, between or after its writes of the task
-   record, deletes and restarts: in a live process the persisted state and the in-memory state of the task agree and are
-   never Initial *)
+   record, resumes the store refuses, deletes and restarts: in a live process the persisted state and the in-memory state of the
+   task agree and are never Initial, the replicate entity of the target is registered while the task runs and is not registered
+   when the task is gone *)
 Theorem C11_reload_every_history : forall ls,
   let s := Reload.run Reload.cfg_now Reload.init ls in
-  Reload.dead s = false -> Reload.stored s = Reload.mem s /\ Reload.stored s <> Some Reload.SInitial.
+  Reload.dead s = false ->
+  Reload.stored s = Reload.mem s /\ Reload.stored s <> Some Reload.SInitial
+  /\ (Reload.mem s = Some Reload.SRunning -> Reload.ent s = true) /\ (Reload.mem s = None -> Reload.ent s = false).
 Proof. exact ReloadProofs.reload_every_history. Qed.
 Print Assumptions C11_reload_every_history.
 
 (* after a restart every persisted task runs, whatever state the crash left in the store *)
 Theorem C11_restart_runs : forall s x, Reload.stored s = Some x ->
   let s' := Reload.step Reload.cfg_now s Reload.LRestart in
-  Reload.stored s' = Some Reload.SRunning /\ Reload.mem s' = Some Reload.SRunning /\ Reload.dead s' = false.
+  Reload.stored s' = Some Reload.SRunning /\ Reload.mem s' = Some Reload.SRunning /\ Reload.dead s' = false /\ Reload.ent s' = true.
 Proof. exact ReloadProofs.restart_runs. Qed.
 Print Assumptions C11_restart_runs.
+
+(* a delete releases the entity of the target, whatever was left registered - also the idle entity that a refused resume
+   leaves behind; so does a pause *)
+Theorem C11_delete_releases : forall s x, Reload.dead s = false -> Reload.mem s = Some x ->
+  Reload.ent (Reload.step Reload.cfg_now s Reload.LDelete) = false.
+Proof. exact ReloadProofs.delete_releases. Qed.
+Print Assumptions C11_delete_releases.
+Theorem C11_pause_releases : forall s, Reload.dead s = false -> Reload.mem s = Some Reload.SRunning ->
+  Reload.ent (Reload.step Reload.cfg_now s (Reload.LPause None)) = false.
+Proof. exact ReloadProofs.pause_releases. Qed.
+Print Assumptions C11_pause_releases.
 
 (* the checker evaluated on the implementation's observations accepts every trace of this model *)
 Theorem C11_reload_checker_accepts_model : forall k,
